@@ -282,7 +282,7 @@ def ag_counts(case, rnd):
 
 def ag_check_state(case, state, model_window, where):
   hp = case['hp']
-  d, w = hp['domains'], hp['window']
+  d, w = hp['domains'], len(model_window)
   dw = np.asarray(state.domain_weights)
   require(dw.shape == (d,), 'agnostic:domain_weights_shape', f'{where}: {dw.shape}')
   dw = dw.astype(np.float64)
@@ -331,6 +331,13 @@ def run_agnostic(case):
   model_window = [init_window] * hp['window']
   init_weights = np.asarray(state.domain_weights)
   ag_check_state(case, state, model_window, 'after init')
+  if case.get('carried_window'):
+    # The run goes on from a state produced with ANOTHER window size (a warm
+    # start with new hyper-parameters; the window is a plain list in the public
+    # ServerState): it keeps the length it came with, newest counts last.
+    model_window = [init_window * (k + 1) for k in range(case['carried_window'])]
+    state = state.replace(domain_window=[jnp.asarray(w_, jnp.float32) for w_ in model_window])
+    ag_check_state(case, state, model_window, 'carried-over state')
   extra = set()
   rounds = [list(r) for r in case['rounds']]
   r = 0
@@ -388,6 +395,8 @@ def ag_labels(case):
         'init_win:' + hp['init_win'], 'rounds:%d' % len(case['rounds'])]
   if 0 in AG_WEIGHTS[hp['domains']][hp['init_w']]:
     ls.append('zero_init_weight')
+  if case.get('carried_window'):
+    ls.append('state_from_a_run_with_a_%s_window' % ('shorter' if case['carried_window'] < hp['window'] else 'longer'))
   used = set(dom for c in case['pool'] for dom in c['dom'])
   if len(used) < hp['domains']:
     ls.append('domain_never_gets_an_example')
@@ -878,6 +887,14 @@ def run_ignore(case):
     base = opt_of({'name': case['opt'], 'lr_exp': case['lr_exp'], 'momentum': 4})
   opt = opt_lib.ignore_grads_haiku(base, [(m, n) for m, n in case['ignore']])
   params = ig_tree(modules, case['params'])
+  fk = case.get('frozen_kind')
+  if fk:
+    # frozen entries as a host would hold them: NumPy tables in a dtype the
+    # accelerator side does not use (a float64 embedding, an int64 index buffer)
+    for m, n in ignored:
+      v = np.asarray(params[m][n], np.float64)
+      params[m][n] = ((v + 0.1) if fk == 'np_f64' else
+                      (v.astype(np.int64) + 2 ** 40) if fk == 'np_i64' else v.astype(np.float16))
   state = opt.init(params)
   ref_params = ig_filter(params, ignored)
   ref_state = base.init(ref_params)
@@ -918,6 +935,8 @@ def ig_labels(case):
   mods_ign = {m for m, _ in ign}
   if any(m in mods_ign and (m, n) not in ign for m, n in pairs):
     ls.append('module_partly_ignored')
+  if case.get('frozen_kind') and ign:
+    ls.append('frozen_entries:' + case['frozen_kind'])
   if any(all((m['name'], n) in ign for n in m['leaves']) for m in case['modules']) and ign:
     ls.append('module_fully_ignored')
   if any(v in (IG_NAN, IG_INF) for g in case['steps'] for lv in g.values() for vs in lv.values() for v in vs):
@@ -1045,6 +1064,8 @@ def agnostic_cases(draw, tier):
   hp = draw_hp(draw, tier, AG_PRESETS, _ag_free)
   case = {'alg': 'agnostic', 'hp': hp}
   case.update(draw_common(draw, tier, hp['domains']))
+  if draw(st.integers(0, 3)) == 0:
+    case['carried_window'] = draw(st.sampled_from([n for n in (1, 2, 3, 4) if n != hp['window']]))
   return case
 
 
@@ -1151,7 +1172,8 @@ def ignore_cases(draw, tier):
   steps = [values(True) for _ in range(nsteps)]
   return {'alg': 'ignore_grads_haiku', 'modules': modules, 'ignore': ignore,
           'opt': draw(st.sampled_from(IG_OPTS)), 'lr_exp': draw(st.integers(0, 4)),
-          'params': values(False), 'steps': steps}
+          'params': values(False), 'steps': steps,
+          'frozen_kind': draw(st.sampled_from([None, None, None, 'np_f64', 'np_i64', 'np_f16']))}
 
 
 CHECKS = [
